@@ -237,6 +237,9 @@ func (s *Scenario) operandText(i, c int) string {
 	case n.Op == "paren":
 		return t
 	}
+	if s.CfgInt("bare", 0) == 1 {
+		return t // the scenario is about operands that are seen directly
+	}
 	h := fnv.New32a()
 	h.Write([]byte(s.ID))
 	if (h.Sum32()+uint32(i)*7+uint32(c))%3 == 0 {
